@@ -292,6 +292,31 @@ def expected_matlab_files(matroot, ns_dir, type_names):
             out.append("no file %s.m for model type" % t)
     return out
 
+PY_INSTANTIATE = """
+import inspect, enum
+bad = []
+for mn in %r:
+    mod = sys.modules[mn]
+    for name, cls in inspect.getmembers(mod, inspect.isclass):
+        if cls.__module__ != mn or issubclass(cls, enum.Enum) or name.endswith("UnionCase") or "__init__" not in cls.__dict__:
+            continue
+        try:
+            sig = inspect.signature(cls.__init__)
+        except (TypeError, ValueError):
+            continue
+        params = list(sig.parameters.values())[1:]
+        if any(p.default is inspect.Parameter.empty and p.kind not in (p.VAR_POSITIONAL, p.VAR_KEYWORD) for p in params):
+            continue
+        try:
+            cls()
+        except Exception as e:
+            bad.append("%%s.%%s(): %%s: %%s" %% (mn, name, type(e).__name__, e))
+if bad:
+    print(" ; ".join(bad)[:600])
+    sys.exit(1)
+"""
+
+
 def evaluate(wd, files, pkgdir="model", cfg=None, pyimport=None, want=("cpp", "python", "matlab", "json")):
     """Writes the tree, validates, generates, checks each target. Returns {"accepted":bool, "fails":[(target, stage, detail)]}."""
     cfg = dict(DEFAULT_CFG, **(cfg or {}))
@@ -340,6 +365,13 @@ def evaluate(wd, files, pkgdir="model", cfg=None, pyimport=None, want=("cpp", "p
         p = subprocess.run([build.PY, "-c", code], capture_output=True, text=True, cwd=wd, env=dict(os.environ, PYTHONDONTWRITEBYTECODE="1"))
         if p.returncode != 0:
             fails.append(("python", "import", " | ".join(p.stderr.strip().split("\n")[-3:])[-500:]))
+        else:
+            # every record class whose constructor has only defaulted parameters must be constructible (a parameter that shadows a
+            # module, a default that refers to a shadowed name ... only show when the constructor runs)
+            code2 = code + PY_INSTANTIATE % ([m for m in mods if m.endswith(".types")],)
+            p = subprocess.run([build.PY, "-c", code2], capture_output=True, text=True, cwd=wd, env=dict(os.environ, PYTHONDONTWRITEBYTECODE="1"))
+            if p.returncode != 0:
+                fails.append(("python", "instantiate", (p.stdout.strip().split("\n")[-1:] + p.stderr.strip().split("\n")[-2:])[0][-400:] if p.stdout.strip() else " | ".join(p.stderr.strip().split("\n")[-3:])[-400:]))
     if "matlab" in targets and "matlab" in want:
         for d in matlab_lint(os.path.join(outdir, "matlab")):
             fails.append(("matlab", "lint", d))
@@ -1056,6 +1088,12 @@ def option_models():
                                              "imp/_package.yml": "namespace: Imp\n",
                                              "imp/model.yml": "Zi: !record\n  fields:\n    zy: int\nPimp: !protocol\n  sequence:\n    q: Zi\n    u: [float, bool]\n"
                                                               "    su: !stream\n      items: [Zi, string]\n    ou: [null, int, string]\n"},
+        "field-named-like-imported-namespace": {"model/model.yml": "Rn: !record\n  fields:\n    imp: Imp.Zi\n    other: Imp.Zi\nPn: !protocol\n  sequence:\n    a: Rn\n",
+                                                "imp/_package.yml": "namespace: Imp\n", "imp/model.yml": "Zi: !record\n  fields:\n    zy: int\n"},
+        "diamond-import": {"model/model.yml": "Rd: !record\n  fields:\n    b: Ib.Tb\n    c: Ic.Tc\nPd: !protocol\n  sequence:\n    a: Rd\n",
+                           "ib/_package.yml": "namespace: Ib\nimports:\n  - ../id\n", "ib/model.yml": "Tb: !record\n  fields:\n    d: Id.Td\n",
+                           "ic/_package.yml": "namespace: Ic\nimports:\n  - ../id\n", "ic/model.yml": "Tc: !record\n  fields:\n    d: Id.Td\n    e: Id.Ed\n",
+                           "id/_package.yml": "namespace: Id\n", "id/model.yml": "Td: !record\n  fields:\n    v: int\nEd: !enum\n  values: [p, q]\n"},
         "with-version": {"model/model.yml": base, "v0/_package.yml": "namespace: Bq\n", "v0/model.yml": base.replace("    gq: string?\n", "    gq: string\n")},
     }
 
@@ -1088,7 +1126,7 @@ def part_c(chk, quick):
     def run(case):
         mname, mfiles, cfg = case
         files = dict(mfiles)
-        imports = ("../imp",) if "imp/_package.yml" in files else ()
+        imports = ("../imp",) if "imp/_package.yml" in files else (("../ib", "../ic") if "ib/_package.yml" in files else ())
         versions = (("v0", "../v0"),) if "v0/_package.yml" in files else ()
         c = dict(DEFAULT_CFG)
         c.update(cfg)
